@@ -281,6 +281,9 @@ func (bkt *Bucket) checkForDump(dumpthreshold int) bool {
 // called by hstore, data already flushed
 func (bkt *Bucket) close() {
 	logger.Infof("closing bucket %s", bkt.Home)
+	// after a rotation the previous file is flushed by a goroutine that may not have run yet:
+	// flush every file that still has buffered records, oldest first, then the head
+	bkt.datas.flushPending()
 	bkt.datas.flush(-1, true)
 	datas, _ := filepath.Glob(fmt.Sprintf("%s/*.data", bkt.Home))
 	if len(datas) == 0 {
